@@ -109,87 +109,8 @@ def run(ctx) -> None:
     rep.add("C10.R1", f"{coll.qname}:one-list-per-output", bool(init), coll.loc(), "collector starts with an empty list for every output of the node" if init else "collector is not initialised with one empty list per node output")
 
     # ---- R2 ---------------------------------------------------------------------
+    check_async_map_order(ctx, "C10.R2")
     amap = [m for m in template_methods(db, "map") if m.is_async][0]
-    worker = None
-    for ch in amap.children.values():
-        apps = [c for c in db.calls_in(ch) if isinstance(c.func, ast.Attribute) and c.func.attr == "append"]
-        if len(apps) >= 2:
-            worker = ch
-    if worker is None:
-        rep.bad("C10.R2", f"{amap.qname}:worker", amap.loc(), "bounded-map worker closure not found")
-    else:
-        wcfg = ctx.cfg(worker)
-        apps = [(n, c) for n in wcfg.nodes for c in wcfg.calls_at(n) if isinstance(c.func, ast.Attribute) and c.func.attr == "append" and isinstance(c.func.value, ast.Name)]
-        lists = {c.func.value.id for _, c in apps}
-        # which pair is zipped and sorted in the enclosing function?
-        zipped = None
-        for c in db.calls_in(amap):
-            if dotted(c.func) == "sorted" and c.args and isinstance(c.args[0], ast.Call) and dotted(c.args[0].func) == "zip":
-                names = [a.id for a in c.args[0].args if isinstance(a, ast.Name)]
-                if len(names) == 2 and set(names) <= lists:
-                    zipped = (names[0], names[1], c)
-        ok = zipped is not None
-        why = "results of the bounded map are not restored by sorted(zip(<index list>, <result list>))"
-        if ok:
-            idx_list, res_list, sort_call = zipped
-            an = {c.func.value.id: n for n, c in apps}
-            a_idx, a_res = an.get(idx_list), an.get(res_list)
-            # index appended is the queue index of the item just run
-            runs = [n for n in wcfg.nodes if any(isinstance(x, ast.Await) for e in wcfg.header_exprs(n) for x in ast.walk(e)) and any("_run_map_item" in call_names(db, c, worker) for c in wcfg.calls_at(n))]
-            if not runs or a_idx is None or a_res is None:
-                ok, why = False, "worker structure not recognised"
-            else:
-                r = runs[0]
-                dom = dominators(wcfg.entry)
-                # both appends after the item finished
-                if not (r in dom.get(a_idx, set()) and r in dom.get(a_res, set())):
-                    ok, why = False, "an index/result append can happen before the item has finished: the index list then records dispatch order while the result list records completion order"
-                # no await between the two appends
-                first, second = (a_idx, a_res) if reaches(a_idx, a_res, avoid=[r]) else (a_res, a_idx)
-                for n in reachable(first):
-                    if n in (first, second):
-                        continue
-                    if reaches(n, second, avoid=[first]) and reaches(first, n, avoid=[second]) and any(isinstance(x, ast.Await) for e in wcfg.header_exprs(n) for x in ast.walk(e)):
-                        ok, why = False, f"suspension point at line {n.lineno} between appending the result and its index: another worker can interleave and the pairs no longer match"
-                # sorted result is what is returned
-                if ok:
-                    why = "result and index are appended as an atomic pair after the item finished; results = sorted by index"
-        rep.add("C10.R2", f"{amap.qname}:bounded-order", ok, f"{amap.module.rel}:{worker.lineno}", why)
-        # returned list derives from the sort
-        mcfg = ctx.cfg(amap)
-        rd = reaching_defs(mcfg)
-        rets = [n for n in mcfg.nodes if n.kind == "stmt" and isinstance(n.ast, ast.Return) and isinstance(n.ast.value, ast.Name)]
-        okr = bool(rets)
-        for r in rets:
-            vals = [v for d, v in defs_reaching(mcfg, rd, r, r.ast.value.id) if v is not None]
-            for v in vals:
-                t = src(v)
-                if not (("sorted(" in t and "zip(" in t) or t == "[]" or isinstance(v, ast.List)):
-                    okr = False
-            # the unbounded list is filled by iterating the gather result
-        rep.add("C10.R2", f"{amap.qname}:returned-results", okr, amap.loc(), "returned list is either the index-sorted list or the list filled from the gather result" if okr else "map returns a list that is neither index-sorted nor built from the gather result in order")
-        # unbounded branch: tasks by iterating variations; gathered iterated directly
-        var_names = set(vars_from_call(db, amap, {"generate_map_inputs", "list"}))
-        var_names = {v for v in var_names if any(isinstance(d, ast.Assign) and "generate_map_inputs" in src(d.value) for d in db.local_defs(amap).get(v, []))}
-        oku = False
-        for c in db.calls_in(amap):
-            if dotted(c.func) != "asyncio.gather":
-                continue
-            stars = [a.value.id for a in c.args if isinstance(a, ast.Starred) and isinstance(a.value, ast.Name)]
-            if len(stars) != 1:
-                continue
-            tdefs = [d for d in db.local_defs(amap).get(stars[0], []) if isinstance(d, ast.Assign)]
-            built = len(tdefs) == 1 and isinstance(tdefs[0].value, ast.ListComp) and isinstance(tdefs[0].value.generators[0].iter, ast.Name) and tdefs[0].value.generators[0].iter.id in var_names and not tdefs[0].value.generators[0].ifs
-            if not built:
-                continue
-            # the gather result is iterated directly and appended
-            p_ = getattr(c, "_parent", None)
-            while p_ is not None and not isinstance(p_, ast.stmt):
-                p_ = getattr(p_, "_parent", None)
-            gv = p_.targets[0].id if isinstance(p_, ast.Assign) and isinstance(p_.targets[0], ast.Name) else None
-            loops = [n for n in walk_local(amap.node) if isinstance(n, ast.For) and isinstance(n.iter, ast.Name) and n.iter.id == gv]
-            oku = gv is not None and len(loops) == 1 and any(isinstance(x, ast.Call) and isinstance(x.func, ast.Attribute) and x.func.attr == "append" for x in ast.walk(loops[0]))
-        rep.add("C10.R2", f"{amap.qname}:unbounded-order", oku, amap.loc(), "unbounded map: tasks built in variation order, results appended by iterating the gather result" if oku else "unbounded map does not build tasks / collect results in variation order")
 
     # ---- R3 ---------------------------------------------------------------------
     smap = [m for m in template_methods(db, "map") if not m.is_async][0]
@@ -260,6 +181,93 @@ def run(ctx) -> None:
 def _k(f, n) -> int:
     rs = [x for x in walk_local(f.node) if isinstance(x, ast.Raise)]
     return rs.index(n)
+
+
+def check_async_map_order(ctx, rule: str) -> None:
+    """Bounded and unbounded async map both return their results in input order."""
+    db, rep = ctx.db, ctx.rep
+    amap = [m for m in template_methods(db, "map") if m.is_async][0]
+    worker = None
+    for ch in amap.children.values():
+        apps = [c for c in db.calls_in(ch) if isinstance(c.func, ast.Attribute) and c.func.attr == "append"]
+        if len(apps) >= 2:
+            worker = ch
+    if worker is None:
+        rep.bad(rule, f"{amap.qname}:worker", amap.loc(), "bounded-map worker closure not found")
+    else:
+        wcfg = ctx.cfg(worker)
+        apps = [(n, c) for n in wcfg.nodes for c in wcfg.calls_at(n) if isinstance(c.func, ast.Attribute) and c.func.attr == "append" and isinstance(c.func.value, ast.Name)]
+        lists = {c.func.value.id for _, c in apps}
+        # which pair is zipped and sorted in the enclosing function?
+        zipped = None
+        for c in db.calls_in(amap):
+            if dotted(c.func) == "sorted" and c.args and isinstance(c.args[0], ast.Call) and dotted(c.args[0].func) == "zip":
+                names = [a.id for a in c.args[0].args if isinstance(a, ast.Name)]
+                if len(names) == 2 and set(names) <= lists:
+                    zipped = (names[0], names[1], c)
+        ok = zipped is not None
+        why = "results of the bounded map are not restored by sorted(zip(<index list>, <result list>))"
+        if ok:
+            idx_list, res_list, sort_call = zipped
+            an = {c.func.value.id: n for n, c in apps}
+            a_idx, a_res = an.get(idx_list), an.get(res_list)
+            # index appended is the queue index of the item just run
+            runs = [n for n in wcfg.nodes if any(isinstance(x, ast.Await) for e in wcfg.header_exprs(n) for x in ast.walk(e)) and any("_run_map_item" in call_names(db, c, worker) for c in wcfg.calls_at(n))]
+            if not runs or a_idx is None or a_res is None:
+                ok, why = False, "worker structure not recognised"
+            else:
+                r = runs[0]
+                dom = dominators(wcfg.entry)
+                # both appends after the item finished
+                if not (r in dom.get(a_idx, set()) and r in dom.get(a_res, set())):
+                    ok, why = False, "an index/result append can happen before the item has finished: the index list then records dispatch order while the result list records completion order"
+                # no await between the two appends
+                first, second = (a_idx, a_res) if reaches(a_idx, a_res, avoid=[r]) else (a_res, a_idx)
+                for n in reachable(first):
+                    if n in (first, second):
+                        continue
+                    if reaches(n, second, avoid=[first]) and reaches(first, n, avoid=[second]) and any(isinstance(x, ast.Await) for e in wcfg.header_exprs(n) for x in ast.walk(e)):
+                        ok, why = False, f"suspension point at line {n.lineno} between appending the result and its index: another worker can interleave and the pairs no longer match"
+                # sorted result is what is returned
+                if ok:
+                    why = "result and index are appended as an atomic pair after the item finished; results = sorted by index"
+        rep.add(rule, f"{amap.qname}:bounded-order", ok, f"{amap.module.rel}:{worker.lineno}", why)
+        # returned list derives from the sort
+        mcfg = ctx.cfg(amap)
+        rd = reaching_defs(mcfg)
+        rets = [n for n in mcfg.nodes if n.kind == "stmt" and isinstance(n.ast, ast.Return) and isinstance(n.ast.value, ast.Name)]
+        okr = bool(rets)
+        for r in rets:
+            vals = [v for d, v in defs_reaching(mcfg, rd, r, r.ast.value.id) if v is not None]
+            for v in vals:
+                t = src(v)
+                if not (("sorted(" in t and "zip(" in t) or t == "[]" or isinstance(v, ast.List)):
+                    okr = False
+            # the unbounded list is filled by iterating the gather result
+        rep.add(rule, f"{amap.qname}:returned-results", okr, amap.loc(), "returned list is either the index-sorted list or the list filled from the gather result" if okr else "map returns a list that is neither index-sorted nor built from the gather result in order")
+        # unbounded branch: tasks by iterating variations; gathered iterated directly
+        var_names = set(vars_from_call(db, amap, {"generate_map_inputs", "list"}))
+        var_names = {v for v in var_names if any(isinstance(d, ast.Assign) and "generate_map_inputs" in src(d.value) for d in db.local_defs(amap).get(v, []))}
+        oku = False
+        for c in db.calls_in(amap):
+            if dotted(c.func) != "asyncio.gather":
+                continue
+            stars = [a.value.id for a in c.args if isinstance(a, ast.Starred) and isinstance(a.value, ast.Name)]
+            if len(stars) != 1:
+                continue
+            tdefs = [d for d in db.local_defs(amap).get(stars[0], []) if isinstance(d, ast.Assign)]
+            built = len(tdefs) == 1 and isinstance(tdefs[0].value, ast.ListComp) and isinstance(tdefs[0].value.generators[0].iter, ast.Name) and tdefs[0].value.generators[0].iter.id in var_names and not tdefs[0].value.generators[0].ifs
+            if not built:
+                continue
+            # the gather result is iterated directly and appended
+            p_ = getattr(c, "_parent", None)
+            while p_ is not None and not isinstance(p_, ast.stmt):
+                p_ = getattr(p_, "_parent", None)
+            gv = p_.targets[0].id if isinstance(p_, ast.Assign) and isinstance(p_.targets[0], ast.Name) else None
+            loops = [n for n in walk_local(amap.node) if isinstance(n, ast.For) and isinstance(n.iter, ast.Name) and n.iter.id == gv]
+            oku = gv is not None and len(loops) == 1 and any(isinstance(x, ast.Call) and isinstance(x.func, ast.Attribute) and x.func.attr == "append" for x in ast.walk(loops[0]))
+        rep.add(rule, f"{amap.qname}:unbounded-order", oku, amap.loc(), "unbounded map: tasks built in variation order, results appended by iterating the gather result" if oku else "unbounded map does not build tasks / collect results in variation order")
+
 
 
 HP = "src/hypergraph/runners/_shared/helpers.py"
